@@ -12,24 +12,29 @@ func init() {
 		Rule: "(a) driver: schedules over the REAL supervisor (no goroutines) = sequences of atomic actions {TCPUp, CommitSelected, CommitSelectLost, TCPDown(recv|other), T7Expired, Close, " +
 			"JoinComplete, Step, Step with a commit interposed at the load/store seam}, restricted by an environment model of what a transport can call; DFS over all schedules to a depth with " +
 			"visited-state hashing + random walks of length 60 (a third with rarely-drained notifications to exercise coalescing). distinct = abstract state (state,lastReacted,closed,queue,env) for DFS, " +
-			"schedule for walks; non-trivial = walk of >=6 actions / every DFS state. (b) e2e: randomized Open/Close/reconnect histories on real connections against a scripted peer; distinct = history script hash; " +
-			"non-trivial = the history reached Selected at least once or raced Close with a connect.",
+			"schedule for walks; non-trivial = walk of >=6 actions / every DFS state. (b) e2e: randomized histories on real hsmsss connections against a scripted peer (select, deselect+reselect, " +
+			"back-to-back reselect bursts in one segment, 24-fold toggle storms with a stalling handler, separate, drop, T7 expiry, late select inside T7, Close at a quiescent point / racing a connect / while selected) with " +
+			"a StateChangeHandler chain monitor, after-Close monitors and the selected-session-survives-T7 monitor; distinct = history script hash; non-trivial = the history reached Selected at least once or raced Close with a connect.",
 		Assumptions: []string{
 			"environment model (c05_driver.go c05Env): TCPUp of generation g+1 only after generation g's teardown was joined and a reconnect loop exists; one receive path per generation; at most one further TCPDown from a non-receive goroutine; one Start may land after Close was requested",
 			"a state change is attributed to the atomic action during which it was observed; Step of evTCPUp/evSelectAccepted/evSelectLost is 'later internal processing of an earlier event' and must not change State()",
+			"e2e: a gap in the notification chain is accepted only up to the dropped_total the library itself reported in its 'coalesced' Warn",
 		},
 		Phases: func(tier string) []fw.Phase {
 			return []fw.Phase{
 				{Name: "driver-dfs", Shards: 16, Timeout: tierDur(tier, 5, 40)},
 				{Name: "driver-walk", Shards: 8, Timeout: tierDur(tier, 5, 40)},
+				{Name: "e2e", Race: true, Shards: 12, Timeout: tierDur(tier, 8, 45), HangIsViolation: true},
 			}
 		},
 		Worker: func(env *fw.Env) {
 			switch env.Phase {
 			case "driver-dfs", "driver-walk":
 				c05DriverWorker(env)
+			case "e2e":
+				c05E2E(env)
 			}
 		},
-		RequiredEvents: []string{"dfs_transitions", "interposed_steps", "walk_steps", "dfs_distinct_states"},
+		RequiredEvents: []string{"dfs_transitions", "interposed_steps", "walk_steps", "dfs_distinct_states", "e2e_histories", "e2e_notifications", "e2e_toggle_storms", "e2e_selected_survives_t7", "e2e_connect_during_close"},
 	})
 }
